@@ -1,5 +1,6 @@
 """C18 - feature structures: unification is the glb; FCFG membership respects unification."""
 import itertools
+import json
 
 from vf import core, values
 from vf.ref import cfg as rc
@@ -335,6 +336,16 @@ def agreement_fcfg(rng):
         prods.append(["A", {"f": a1, "g": a2}, [["T", "a"]]])                 # same skeleton, specific atoms
     else:
         prods.append(["A", {"f": a1}, [["T", "a"], ["T", "a"]]])
+    r = rng.random()
+    if r < 0.25:
+        # the same constituent with its two features tied together AND, by another analysis, independent
+        prods.append(["A", {"f": "?p", "g": "?q"} if shared else {"f": "?z", "g": "?z"}, [["T", "a"]]])
+    elif r < 0.45:
+        P, Q = rng.sample(["P", "Q", "R1", "Zz"], 2)
+        prods[1] = ["A", {"f": "?z", "g": "?z"}, [["V", P, {}]]]
+        prods.append(["A", {"f": "?p", "g": "?q"}, [["V", Q, {}]]])
+        prods.append([P, {}, [["T", "a"]]])
+        prods.append([Q, {}, [["T", "a"]]])
     prods.append(["B", {"f": b1}, [["T", "b"]]])
     if rng.random() < 0.5:
         prods.append(["B", {"f": "y" if b1 == "x" else "x"}, [["T", "b"], ["T", "b"]]])
@@ -398,15 +409,82 @@ def nested_fcfg(rng):
     return {"kind": "fcfg", "prods": prods, "via": rng.choice(["text", "text", "api"])}
 
 
+def bars_fcfg(rng):
+    """alternatives on one line, each with its own atomic body features: S -> X[f=x] a | X[f=y] b | Y[g=x] X[f=y]"""
+    alts = []
+    for _ in range(rng.randint(2, 3)):
+        body = []
+        for _ in range(rng.randint(1, 2)):
+            if rng.random() < 0.6:
+                body.append(["V", rng.choice(["X", "Y"]), {rng.choice("fg"): rng.choice(ATOMS)}])
+            else:
+                body.append(["T", rng.choice("ab")])
+        if ["S", {}, body] not in alts:
+            alts.append(["S", {}, body])
+    prods = alts + [["X", {"f": "x", "g": rng.choice(ATOMS)}, [["T", "a"]]], ["X", {"f": "y", "g": rng.choice(ATOMS)}, [["T", "b"]]],
+                    ["Y", {"f": rng.choice(ATOMS), "g": "x"}, [["T", "a"]]], ["Y", {"f": rng.choice(ATOMS), "g": "y"}, [["T", "b"]]]]
+    return {"kind": "fcfg", "prods": prods, "via": "text", "bars": True}
+
+
 def ftxt(d):
     return "[" + ",".join("%s=%s" % (k, ftxt(v) if isinstance(v, dict) else v) for k, v in d.items()) + "]" if d else ""
 
 
-def to_text(prods):
+def case_ref(c):
+    """the reference grammar straight from the case (what the text / the constructor arguments SAY), not from the
+    library's reading of it"""
+    def slots(d, k, prefix=()):
+        out = {}
+        for f, v in d.items():
+            if isinstance(v, dict):
+                out.update(slots(v, k, prefix + (f,)))
+            elif v.startswith("?"):
+                out[prefix + (f,)] = ("var", (k, v))
+            else:
+                out[prefix + (f,)] = ("atom", v)
+        return out
+    prods = []
+    atoms = set()
+    for k, (h, hf, body) in enumerate(c["prods"]):
+        hs = slots(hf, k)
+        b = [("V", x[1], slots(x[2], k)) if x[0] == "V" else ("T", x[1]) for x in body]
+        prods.append((h, hs, b))
+        for sl in [hs] + [x[2] for x in b if x[0] == "V"]:
+            atoms |= {v[1] for v in sl.values() if v[0] == "atom"}
+    close_paths(prods)
+    gp, s0 = rfs.ground(prods, "S", sorted(atoms, key=repr) or ["x"])
+    return rc.Grammar(gp, s0)
+
+
+def canon_prod(p_):
+    """a production of a case up to the names of its feature variables (numbered in order of appearance)"""
+    names = {}
+
+    def ren(d):
+        return {k: (ren(v) if isinstance(v, dict) else
+                    ("?%d" % names.setdefault(v, len(names)) if isinstance(v, str) and v.startswith("?") else v))
+                for k, v in d.items()}
+    h, hf, body = p_
+    return json.dumps([h, ren(hf), [[x[0], x[1]] + ([ren(x[2])] if x[0] == "V" else []) for x in body]])
+
+
+def body_text(body):
+    return " ".join((x[1] if x[0] == "T" else x[1] + ftxt(x[2])) for x in body) if body else "epsilon"
+
+
+def to_text(prods, bars=False):
+    """one production per line; with bars, consecutive productions with the same head text (and no variable in the
+    head's features, which a line would share between its alternatives) are written as alternatives A -> x | y"""
     lines = []
+    heads = []
     for h, hf, body in prods:
-        lines.append(h + ftxt(hf) + " -> " + (" ".join((x[1] if x[0] == "T" else x[1] + ftxt(x[2])) for x in body)
-                                             if body else "epsilon"))
+        ht = h + ftxt(hf)
+        if bars and heads and heads[-1] == ht and "?" not in ht and not any(
+                "?" in ftxt(x[2]) for x in body if x[0] == "V"):
+            lines[-1] += " | " + body_text(body)
+        else:
+            lines.append(ht + " -> " + body_text(body))
+            heads.append(ht if not any("?" in ftxt(x[2]) for x in body if x[0] == "V") else None)
     return "\n".join(lines)
 
 
@@ -414,7 +492,7 @@ def build_fcfg(c):
     from pyformlang.fcfg import FCFG, FeatureStructure, FeatureProduction
     from pyformlang.cfg import Variable, Terminal
     if c["via"] == "text":
-        return FCFG.from_text(to_text(c["prods"]))
+        return FCFG.from_text(to_text(c["prods"], bars=c.get("bars", False)))
     prods = set()
     for h, hf, body in c["prods"]:
         variables = {}
@@ -461,7 +539,14 @@ def plan(tier, rng, sl, nslices, stats):
         a, b = rand_spec(rng), rand_spec(rng)
         yield {"kind": "unify", "a": a, "b": b}
     for i in range(cfg["fcfg"]):
-        yield [rand_fcfg, nested_fcfg, agreement_fcfg, epsilon_fcfg, rand_fcfg][i % 5](rng)
+        c = [rand_fcfg, nested_fcfg, agreement_fcfg, epsilon_fcfg, rand_fcfg][i % 5](rng)
+        if i % 10 == 9:
+            yield bars_fcfg(rng)
+            continue
+        if c["via"] == "text" and rng.random() < 0.4:
+            c["bars"] = True
+            c["prods"] = sorted(c["prods"], key=lambda p_: (p_[0] + ftxt(p_[1])))     # equal heads next to each other
+        yield c
 
 
 def run_case(c, stats):
@@ -487,6 +572,26 @@ def run_case(c, stats):
         with core.oracle_mode():
             core.report(PROP, "construct", "exception:" + type(g).__name__, {"text": to_text(c["prods"])}, tags)
         return False
+    with core.oracle_mode():
+        # every production of the text / of the set handed to the constructor is a production of the grammar
+        want = {canon_prod(p_) for p_ in c["prods"]}
+        core.LOG.count("C18.production_count")
+        if len(g.productions) != len(want):
+            core.report(PROP, "construct", "productions-lost" if len(g.productions) < len(want) else "productions-added",
+                        {"text": to_text(c["prods"], bars=c.get("bars", False)), "kept": len(g.productions),
+                         "written": len(want)}, tags + ["via:" + c["via"]])
+        # ... and the grammar as the library read it generates what the text says
+        try:
+            lib_prods, lib_start, lib_atoms = fcfg_ref(g)
+            want_ref = case_ref(c)
+            if lib_start is not None:
+                gp, s0 = rfs.ground(lib_prods, lib_start, sorted(lib_atoms, key=repr) or ["x"])
+                core.LOG.count("C18.reading")
+                if rc.Grammar(gp, s0).words(N) != want_ref.words(N):
+                    core.report(PROP, "construct", "grammar-read-differs-from-what-was-written",
+                                {"text": to_text(c["prods"], bars=c.get("bars", False))}, tags + ["via:" + c["via"]])
+        except InconsistentTyping:
+            pass
     nt = False
     with core.case(c, tags):
         for w in itertools.chain.from_iterable(itertools.product("ab", repeat=k) for k in range(N + 1)):
